@@ -101,13 +101,46 @@ func concretise(m udpModel, h uint64) udpSpec {
 	} else if (h>>8)%4 == 1 && len(m.U) > 0 && count(m.T, 4) <= 1 && count(m.U, 4) <= 1 {
 		sp.Sock = "vconn" // the real mapping.UDPVirtualConn (needs the peer's first datagram to exist)
 	}
+	// burst variant: every model datagram stands for `mult` datagrams of its size class, so that
+	// more datagrams than the batch writer has slots (32) are complete in one parse pass
+	mult := 1
+	if count(m.T, 4) == 0 && len(m.T) > 0 && (h>>28)%4 == 0 {
+		mult = []int{11, 16, 17, 33}[(h>>32)%4]
+		if (h>>36)%2 == 0 {
+			sp.Sock = "real" // the sendmmsg batch writer is only used for a real *net.UDPConn
+		}
+	}
+	var mT []int // model sizes, replicated
 	for _, c := range m.T {
+		for k := 0; k < mult; k++ {
+			mT = append(mT, c)
+		}
+	}
+	modelOff := func(off int) int { // offset in the model stream -> offset in the replicated model stream
+		if mult == 1 {
+			return off
+		}
+		mo, ro := 0, 0
+		for _, c := range m.T {
+			if off < mo+2+c {
+				r := off - mo
+				if r <= 2 {
+					return ro + r // boundary / inside the first length prefix of the group
+				}
+				return ro + (mult-1)*(2+c) + r // inside the data of the last datagram of the group
+			}
+			mo += 2 + c
+			ro += mult * (2 + c)
+		}
+		return ro
+	}
+	for _, c := range mT {
 		sp.T = append(sp.T, classSize(c, sp.Sock != "fake"))
 	}
 	for _, c := range m.U {
 		sp.U = append(sp.U, classSize(c, sp.Sock != "fake"))
 	}
-	sp.Cut = mapOff(m.T, sp.T, m.Cut)
+	sp.Cut = mapOff(mT, sp.T, modelOff(m.Cut))
 	switch {
 	case m.Chunk == 99 && (h>>16)%2 == 0 && sp.Cut > 1:
 		// the "everything at once" policy alternates with a seeded random chunking
@@ -125,7 +158,7 @@ func concretise(m udpModel, h uint64) udpSpec {
 	case m.Chunk != 99 && m.Chunk > 0:
 		last := 0
 		for o := m.Chunk; o < m.Cut; o += m.Chunk {
-			if b := mapOff(m.T, sp.T, o); b > last && b < sp.Cut {
+			if b := mapOff(mT, sp.T, modelOff(o)); b > last && b < sp.Cut {
 				sp.Bounds = append(sp.Bounds, b)
 				last = b
 			}
@@ -166,6 +199,9 @@ func expand(env *fw.Env, src string, raw json.RawMessage) []json.RawMessage {
 			panic(err)
 		}
 		sp := bidiSpec{Kind: "bidi", Via: "direct", Unit: []int{1, 3, 1024, 4096}[h%4], Steps: steps}
+		if (h>>12)%3 == 0 {
+			sp.Flow = 12 // seconds of scripted time with continued traffic before the endpoints finish
+		}
 		if (h>>8)%5 == 0 {
 			sp.Via = "tunnel"
 		}
@@ -219,6 +255,15 @@ func extras(env *fw.Env) []json.RawMessage {
 		add(scriptSpec{Kind: "bfree", Via: via, ShA: []string{"direct-cw", "direct-closer"}[i%2], ShB: "same-closer", Ops: ops})
 		add(scriptSpec{Kind: "bfree", Via: "direct", ShA: "direct-cw", ShB: shapesB[i%len(shapesB)], Ops: ops})
 	}
+	// time passes while one direction is finished and the other keeps sending (scripted clock)
+	F := func(n int) sop { return sop{Op: "flow", N: n} }
+	for _, sh := range [][2]string{{"direct-cw", "direct-cw"}, {"direct-closer", "direct-cw"}, {"direct-cw", "same-closer"}, {"direct-cw", "direct-closer"}} {
+		for _, via := range []string{"direct", "tunnel"} {
+			add(scriptSpec{Kind: "bfree", Via: via, ShA: sh[0], ShB: sh[1], Ops: []sop{S("A", 500), S("B", 500), W, E("B", "halfclose"), W, F(15), E("A", "halfclose")}})
+			add(scriptSpec{Kind: "bfree", Via: via, ShA: sh[0], ShB: sh[1], Ops: []sop{S("A", 500), W, E("A", "halfclose"), W, F(15), E("B", "halfclose")}})
+			add(scriptSpec{Kind: "bfree", Via: via, ShA: sh[0], ShB: sh[1], Ops: []sop{F(13), E("A", "halfclose"), F(13), E("B", "close")}})
+		}
+	}
 	// a net.Pipe tunnel (no CloseWrite, is a Closer) behind the real adapter, local side real TCP:
 	// the local application half-closes first, the tunnel peer answers afterwards
 	for _, via := range []string{"direct", "tunnel"} {
@@ -260,6 +305,19 @@ func extras(env *fw.Env) []json.RawMessage {
 	}
 	big := []int{65535, 65535, 65535, 65535, 65535}
 	bigLen := 5 * 65537
+	// more complete datagrams in one tunnel read than the batch writer of a real *net.UDPConn has slots
+	for _, n := range []int{31, 32, 33, 40, 64, 65, 100} {
+		var t []int
+		tot := 0
+		for i := 0; i < n; i++ {
+			t = append(t, []int{1, 2, 255, 17}[i%4])
+			tot += 2 + t[i]
+		}
+		for _, sock := range []string{"real", "fake", "vconn"} {
+			add(udpSpec{Kind: "udp", Via: []string{"direct", "tunnel"}[n%2], Sock: sock, T: t, U: []int{9}, Cut: tot, How: "eof", Pace: "burst", Bounds: []int{tot}})
+		}
+		add(udpSpec{Kind: "udp", Via: "direct", Sock: "real", T: t, Cut: tot - 1, How: "err", Pace: "burst", Bounds: []int{tot - 1}})
+	}
 	for _, how := range []string{"eof", "err"} {
 		add(udpSpec{Kind: "udp", Via: "direct", Sock: "fake", T: many, Cut: manyLen, How: how, Pace: "burst", Bounds: []int{manyLen}})
 		add(udpSpec{Kind: "udp", Via: "direct", Sock: "fake", T: many, Cut: manyLen - 100, How: how, Pace: "burst", Bounds: []int{manyLen - 100}})
@@ -362,7 +420,7 @@ func udpConstsA(tseqs, useqs string, maxt, maxu int, batch int, devSpin, devNoUn
 	}
 	return map[string]string{"CLASSES": "{1, 2, 3, 4}", "BATCHSIZE": fmt.Sprint(batch), "TSEQS": tseqs, "USEQS": useqs,
 		"MAXT": fmt.Sprint(maxt), "MAXU": fmt.Sprint(maxu), "DEVSPIN": b(devSpin), "DEVNOUNBLOCK": b(devNoUnblock), "ALIAS": b(alias), "LIVE": live,
-		"SOCKQ": "FALSE", "QREFS": "FALSE", "DROP": "FALSE"}
+		"SOCKQ": "FALSE", "QREFS": "FALSE", "DROP": "FALSE", "SOCKB": "FALSE", "NOINNER": "FALSE"}
 }
 
 func modelJobs(env *fw.Env) []fw.TLCJob {
@@ -439,6 +497,12 @@ func startBackground(env *fw.Env) {
 	cfb.expect = []string{"Invariant BReverseKeepsFlowing is violated"}
 	bgRuns = append(bgRuns, alias, qrefs, cfb,
 		mk("udp:virtual conn(vconn cfg):write queue + writeLoop, copies, drained after close", "Relay_udp_vconn.cfg", nil, false))
+	dlr := mk("bidi:seeded-fault(deadline cfg):absolute read deadline on the surviving direction", "Relay_bidi_deadline.cfg", nil, true)
+	dlr.expect = []string{"Invariant BNoSpuriousEnd is violated", "Invariant BNoDeadline is violated"}
+	nif := mk("udp:seeded-fault(noinnerflush cfg):no flush inside the unpack loop, batch writer with BatchSize slots", "Relay_udp_noinnerflush.cfg", nil, true)
+	nif.expect = []string{"Invariant UBatchFits is violated", "Invariant UCompleteAny is violated", "Invariant UComplete is violated"}
+	bgRuns = append(bgRuns, dlr, nif,
+		mk("udp:real socket(batch cfg):udpBatchWriter with BatchSize=2 slots, flush inside the unpack loop", "Relay_udp_batch.cfg", nil, false))
 	drop := mk("udp:as-found(droponclose_strict cfg):writeLoop abandons its queue on Close", "Relay_udp_droponclose_strict.cfg", nil, true)
 	drop.expect = []string{"Invariant UNoDrop is violated"}
 	bgRuns = append(bgRuns, drop)
